@@ -146,7 +146,7 @@ def next_id(tdset, table_id):
 def safe_parse(json_str):
   try:
     return json.loads(json_str)
-  except ValueError:
+  except (ValueError, RecursionError):
     return {}
 
 @migration(schema_version=1)
@@ -616,7 +616,7 @@ def migration15(tdset):
     # If the field belongs to the section and the field's colRef is in its filterSpec,
     # pull the filter setting from the section.
     filter_spec = specs.get(f.parentId)
-    if filter_spec and str(f.colRef) in filter_spec:
+    if isinstance(filter_spec, dict) and str(f.colRef) in filter_spec:
       doc_actions.append(actions.UpdateRecord('_grist_Views_section_field', f.id, {
         'filter': json.dumps(filter_spec[str(f.colRef)])
       }))
@@ -655,8 +655,11 @@ def migration16(tdset):
     except Exception:
       return None   # If invalid widgetOptions, skip this column.
 
+    if not isinstance(parsed_options, dict):
+      return None   # widgetOptions should be a JSON object; skip anything else.
+
     visible_col_id = parsed_options.pop('visibleCol', None)
-    if not visible_col_id:
+    if not visible_col_id or not isinstance(visible_col_id, str):
       return None
 
     # Find visible_col_id as the column name in the appropriate table.
@@ -1130,12 +1133,16 @@ def migration34(tdset):
   sections = list(actions.transpose_bulk_action(tdset.all_tables['_grist_Views_section']))
   filters = list(actions.transpose_bulk_action(tdset.all_tables['_grist_Filters']))
   raw_section_ids = set(t.rawViewSectionRef for t in tables)
+  def has_filter_bar(section):
+    options = safe_parse(section.options)
+    return bool(isinstance(options, dict) and options.get('filterBar', False))
+
   filter_bar_by_section_id = {
     # Pre-migration, raw sections always showed the filter bar in the UI. Since we want
     # existing raw section filters to continue appearing in the filter bar, we'll pretend
     # here that raw sections have a filterBar value of True. Note that after this migration
     # it will be possible for raw sections to have unpinned filters.
-    s.id: bool(s.id in raw_section_ids or safe_parse(s.options).get('filterBar', False))
+    s.id: bool(s.id in raw_section_ids or has_filter_bar(s))
     for s in sections
   }
 
@@ -1173,7 +1180,8 @@ def migration35(tdset):
   acl_rule_updates = []
   for acl_rule_rec in acl_rules:
     acl_formula = safe_parse(acl_rule_rec.aclFormulaParsed)
-    if not acl_formula or acl_formula[0] != 'Comment':
+    if not (isinstance(acl_formula, list) and len(acl_formula) == 3 and acl_formula[0] == 'Comment'
+            and isinstance(acl_formula[2], str)):
       continue
 
     acl_rule_updates.append((
